@@ -79,6 +79,31 @@ func skMergeRefused(s int) skOp {
 		mod: func(*SketchWorld) {}}
 }
 
+// skDecodeRefusedThenClear: the exact-statistics variant is offered an encoding
+// without statistics blocks (that of a plain sketch), which it refuses, and is
+// then cleared. What a failed decode leaves behind is not specified (section 6),
+// so the two steps form one operation: only the state after Clear is judged
+// (in the twin world the sketch is replaced by a new one).
+func skDecodeRefusedThenClear(s int) skOp {
+	return skOp{name: fmt.Sprintf("%s.DecodeAndMergeWith(encoding of a plain sketch holding 2.5 and zeros) [refused by the exact variant]; %s.Clear()", slotName(s), slotName(s)), tag: "clear", writes: 1 << uint(s),
+		real: func(w *SketchWorld, st []*SkSlot, twin bool) {
+			if st[s].Exact {
+				plain := ddsketch.NewDDSketch(st[s].Mapping(), st[s].Store.New(), st[s].Store.New())
+				plain.Add(2.5)
+				plain.AddWithCount(0, 3)
+				var b []byte
+				plain.Encode(&b, false)
+				st[s].E.DecodeAndMergeWith(b)
+			}
+			if twin && !w.SkipReads {
+				st[s] = NewSkSlot(st[s].Mapping(), st[s].Store, st[s].Exact)
+			} else {
+				st[s].Q().Clear()
+			}
+		},
+		mod: func(w *SketchWorld) { w.M[s].Clear() }}
+}
+
 func bigSum(ent []Entry) (sum, abs float64) {
 	var s, a big.Float
 	s.SetPrec(2000)
@@ -881,6 +906,10 @@ func init() {
 						sp.Ops = generalSketchOps(m, k, exact)
 						// model-free world: a huge weighted value overflows the exact sum
 						sp.Ops = append(sp.Ops, skAddW(0, 1e200, 1e200), skAddW(0, -1e200, 1e200))
+						if exact {
+							// a refused decode, then Clear: nothing of it may survive
+							sp.Ops = append(sp.Ops, skDecodeRefusedThenClear(0))
+						}
 						specs = append(specs, sp)
 					}
 				}
@@ -904,6 +933,8 @@ func init() {
 				}
 				o.reweights = reweightFactors
 				o.reads = false
+				// something cached by a query and shared by a copy must not be scaled twice
+				o.runs = append(o.runs, opReadAll(0), opReweight(1, 2))
 			})
 			sh := shardsOfSpecs(stSpecs)
 			var specs []*SketchScenarioSpec
